@@ -227,6 +227,7 @@ pub struct Ctrl {
     pub xywl_hdr: Vec<u8>,
     /// decoded windows programmed via 0x90 / 0x14 / 0x15 / 0x16 (opidx, op, x, y, w, h)
     pub uc_windows: Vec<(u32, u8, u32, u32, u32, u32)>,
+    soft_finished: bool,
 }
 
 fn bit_set(b: &mut [u64; 4], op: u8) {
@@ -285,6 +286,7 @@ impl Ctrl {
             data_bytes_cur: 0,
             xywl_hdr: Vec::new(),
             uc_windows: Vec::new(),
+            soft_finished: false,
         };
         c.por_registers();
         c
@@ -319,7 +321,9 @@ impl Ctrl {
         self.opidx += 1;
     }
     pub fn op_end(&mut self) {
-        self.finish_cmd();
+        // registers / LUTs of the command in flight become visible to snapshots, but the command
+        // stays open: data sent at the start of the next call still belongs to it on the wire.
+        self.finish_cmd_soft();
     }
 
     pub fn mark(&mut self) {
@@ -405,9 +409,23 @@ impl Ctrl {
         self.busy.raise(true);
     }
 
+    fn finish_cmd_soft(&mut self) {
+        let keep = self.cur;
+        self.finish_cmd();
+        self.cur = keep;
+        if keep.is_some() {
+            self.soft_finished = true;
+        }
+    }
+
     /// called when the current command ends (next command byte, op end, reset)
     fn finish_cmd(&mut self) {
         let Some(ci) = self.cur.take() else { return };
+        if self.soft_finished {
+            // already accounted for at the end of the previous call and no data arrived since
+            self.soft_finished = false;
+            return;
+        }
         let op = self.cmds[ci].op;
         let n = self.cmds[ci].nparams;
         if self.cmds[ci].asleep {
@@ -470,6 +488,14 @@ impl Ctrl {
             self.anomaly("data-without-command", 0, b as i64, 0);
             return;
         };
+        if self.soft_finished {
+            // more data for a command that was in flight when the previous call returned
+            self.soft_finished = false;
+            let op = self.cmds[ci].op;
+            if self.is_lut_cmd(op) {
+                self.lut_uploads.pop();
+            }
+        }
         let (op, idx) = {
             let c = &mut self.cmds[ci];
             let idx = c.nparams;
